@@ -4094,7 +4094,12 @@ where
 
         match v5_0::Disconnect::parse(raw_packet.data_as_slice()) {
             Ok((packet, _)) => {
-                self.apply_disconnect_session_expiry(packet.props());
+                // Only a client may change the Session Expiry Interval with DISCONNECT
+                // [MQTT-3.14.2-2]; one received from the server does not end the
+                // client's session.
+                if !self.is_client {
+                    self.apply_disconnect_session_expiry(packet.props());
+                }
                 self.cancel_timers(&mut events);
                 events.push(GenericEvent::NotifyPacketReceived(packet.into()));
             }
